@@ -42,7 +42,8 @@ fn len_class(n: usize) -> &'static str {
         1..=3 => "len:1-3",
         4..=31 => "len:4-31",
         32..=255 => "len:32-255",
-        _ => "len:256+",
+        256..=1_048_576 => "len:256+",
+        _ => "len:2^20+",
     }
 }
 
@@ -240,6 +241,9 @@ pub fn fqz(lens: &[usize], _quals: &[u8]) -> String {
     if lens.is_empty() {
         return "empty".into();
     }
+    if lens.contains(&0) {
+        return "zero-length-record".into();
+    }
     let fixed = lens.windows(2).all(|w| w[0] == w[1]);
     format!(
         "records:{},{}",
@@ -251,6 +255,12 @@ pub fn fqz(lens: &[usize], _quals: &[u8]) -> String {
 pub fn names(list: &[&[u8]]) -> String {
     if list.is_empty() {
         return "empty-list".into();
+    }
+    // alphanumeric / non-alphanumeric runs are the tokens; the format has 128 token positions per
+    // name, two of which are the name-type and the end marker
+    let tokens = |n: &[u8]| n.chunk_by(|a, b| a.is_ascii_alphanumeric() == b.is_ascii_alphanumeric()).count();
+    if list.iter().any(|n| tokens(n) > 126) {
+        return "name-with>126-tokens".into();
     }
     let dup = (0..list.len()).any(|i| (0..i).any(|j| list[i] == list[j]));
     let n = match list.len() {
